@@ -376,6 +376,9 @@ def translate_module(repo, mod, header):
     tree = ast.parse(src)
     out = [header % {'path': mod['path'], 'imports': mod.get('imports', '')}, mod.get('prelude', '')]
     for sch in mod['functions']:
+        if 'coq' in sch:                      # hand-written glue between two translated functions, emitted verbatim
+            out.append(sch['coq'])
+            continue
         try:
             f = find_function(tree, sch['qualname'])
         except KeyError:
@@ -401,6 +404,15 @@ def translate_module(repo, mod, header):
         got = pinned_text(f)
         if got != want:
             raise Unsupported(f, 'pinned function %s changed: now %r' % (qual, got[:200]), rel)
+    for (rel, qual), want in mod.get('pinned_sig', {}).items():
+        if rel not in trees:
+            trees[rel] = ast.parse(open(os.path.join(repo, rel)).read())
+        try:
+            f = find_function(trees[rel], qual)
+        except KeyError:
+            raise Unsupported(trees[rel], 'function %s not found' % qual, rel)
+        if norm(f.args) != want:
+            raise Unsupported(f, 'signature of %s changed: now (%s)' % (qual, norm(f.args)), rel)
     for (rel, qual), want in mod.get('pinned_assign', {}).items():
         if rel not in trees:
             trees[rel] = ast.parse(open(os.path.join(repo, rel)).read())
